@@ -43,7 +43,7 @@ def cfgP : P (Cfg Float) := do
 
 /-- dif.solve  N E dz minC nAll bc(E) scheme built(E*N) hist(list of dt lists) fluxes(list of E*(N+1) raw tables, one per
     `_getFluxes` call)
-    → per solve call: `K x(E*N)` after setup (or `E`, then the answer stops), per step `x(E*N)`;
+    → per solve call: `K x(E*N) dependent(N)` after setup (or `E`, then the answer stops), per step `x(E*N)`;
       finally `S x(E*N)` / `X`: the state after the whole history through `solves`. -/
 def solve : P String := do
   let cfg ← cfgP
@@ -69,6 +69,7 @@ def solve : P String := do
     | .ok s1 =>
       let a0 := mat E N s1.x
       out := out.push ("K " ++ flist a0.toList)
+      out := out.push (flist ((List.range N).map (dependent E s1.x)))
       let mut x : State Float := tab a0 N
       for dt in dts do
         let a := mat E N (step cfg sch F c x dt)
@@ -95,11 +96,85 @@ def vframe : P String := do
   let Jv := vflux subst (fn J.toArray) (fn u.toArray)
   pure s!"{flist ((List.range n).map Jv)} {fout (sumOver subst Jv)}"
 
+/-! boundary-condition entering calls -/
+
+def sideP : P SideArg := do
+  let t ← tok
+  match t with
+  | "L" => pure .left
+  | "R" => pure .right
+  | "X" => pure .invalid
+  | _ => failure
+
+def typeP : P TypeArg := do
+  let t ← tok
+  match t with
+  | "F" => pure .flux
+  | "C" => pure .comp
+  | "X" => pure .invalid
+  | _ => failure
+
+/-- key: -1 = None, k ≥ 0 = the k-th name -/
+def keyP : P Key := do
+  let i ← int
+  pure (if i < 0 then none else some i.toNat)
+
+def opP : P (BCOp Float) := do
+  let t ← tok
+  match t with
+  | "S" => do let sd ← sideP; let ty ← typeP; let v ← flt; let k ← keyP; pure (.set sd ty v k)
+  | "L" => do let ty ← typeP; let v ← flt; let k ← keyP; pure (.setLeft ty v k)
+  | "R" => do let ty ← typeP; let v ← flt; let k ← keyP; pure (.setRight ty v k)
+  | "B" => do let lt ← typeP; let lv ← flt; let rt ← typeP; let rv ← flt; let k ← keyP; pure (.setBC lt lv rt rv k)
+  | _ => failure
+
+def tyStr : Option BCType → String
+  | none => "-"
+  | some .flux => "0"
+  | some .comp => "1"
+
+def valStr : Option Float → String
+  | none => "none"
+  | some v => fout v
+
+/-- the four dictionaries over the keys None, 0..K-1 -/
+def storeStr (K : Nat) (s : BCStore Float) : String :=
+  let keys : List Key := none :: (List.range K).map some
+  " ".intercalate (keys.map (fun k => s!"{tyStr (s.ltype k)} {valStr (s.lval k)} {tyStr (s.rtype k)} {valStr (s.rval k)}"))
+
+/-- dif.bcops  E K ctor(T/F: object passed to the constructor / made by it) ops
+    → raised flag per op, the dictionaries after the calls (keys None, 0..K-1: ltype lval rtype rval),
+      the dictionaries after setupDefaults(E), the (ltype lval rtype rval) rows read for the E elements;
+      the last token repeats the final dictionaries through `applyOps` -/
+def bcops : P String := do
+  let E ← nat; let K ← nat; let ctor ← bool
+  let ops ← lst opP
+  let s0 : BCStore Float := if ctor then initBC (some BCStore.empty) else initBC none
+  let mut s := s0
+  let mut flags : Array String := #[]
+  for o in ops do
+    let r := applyOp s o
+    s := r.1
+    flags := flags.push (bstr r.2)
+  let d := setupDefaults E s
+  let rows := (List.range E).map (fun e =>
+    let b := toBC d e
+    s!"{tyStr (some b.ltype)} {fout b.lval} {tyStr (some b.rtype)} {fout b.rval}")
+  let same := storeStr K (applyOps s0 ops) == storeStr K s
+  pure (" ".intercalate (flags.toList ++ [storeStr K s, storeStr K d] ++ rows ++ [bstr same]))
+
+/-- dif.shiftclamp  minC nAll v → shiftClamp (the two statements of setup on one value) -/
+def shiftclampV : P String := do
+  let minC ← flt; let nAll ← flt; let vs ← flts
+  pure (flist (vs.map (shiftClamp minC nAll)))
+
 def handle (verb : String) : Option (P String) :=
   match verb with
   | "dif.solve" => some solve
   | "dif.rhs" => some rhsV
   | "dif.vframe" => some vframe
+  | "dif.bcops" => some bcops
+  | "dif.shiftclamp" => some shiftclampV
   | _ => none
 
 end KawinV.Drv.C04
